@@ -110,6 +110,10 @@ def b60(rng, df, force=None):
                     n = rng.randrange(40, 1800)
                     altft = n * 25 - 1000
                     altcode = ralt.q_code13(n)
+                    if rng.random() < 0.3:
+                        # the same kind of register under a Gillham (100-ft) altitude code, as older encoders send it
+                        altft = rng.randrange(0, 451) * 100
+                        altcode = ralt.gillham_code13(altft)
                     m = rng.choice((0, 250, rng.randint(40, 250)))
                     cas = isa.mach2cas(m * 2.048 / 512.0, altft * isa.FT) / isa.KTS
                     ias = int(round(cas + rng.uniform(-9, 9)))
